@@ -536,7 +536,18 @@ class NumModel:
         try:
             v = Evaluator(self.env).ev(t)
         except Undefined:
-            return t
+            # constants that occur neither in the path condition nor in the goal are unconstrained: complete the model with 1
+            # (like z3's model completion), then evaluate again
+            if not model_completion:
+                return t
+            env = dict(self.env)
+            for k, c in free_consts([t]).items():
+                if k not in env:
+                    env[k] = (False if z3.is_bool(c) else Fraction(1))
+            try:
+                v = Evaluator(env).ev(t)
+            except Undefined:
+                return t
         if isinstance(v, bool):
             return z3.BoolVal(v)
         if _exact(v):
